@@ -1353,17 +1353,12 @@ func subF(x, y Float) (Float, error) {
 }
 
 func mulF(x, y Float) (Float, error) {
-	switch {
-	case y != 0 && x > math.MaxFloat64/y:
-		return 0, exceptionalValueFloatOverflow
-	case y != 0 && x < -math.MaxFloat64/y:
-		return 0, exceptionalValueFloatOverflow
-	}
-
 	r := x * y
 
-	// Underflow: x*y = 0 iff x = 0 or y = 0.
-	if r == 0 && x != 0 && y != 0 {
+	switch {
+	case math.IsInf(float64(r), 0):
+		return 0, exceptionalValueFloatOverflow
+	case r == 0 && x != 0 && y != 0: // Underflow: x*y = 0 iff x = 0 or y = 0.
 		return 0, exceptionalValueUnderflow
 	}
 
@@ -1371,19 +1366,16 @@ func mulF(x, y Float) (Float, error) {
 }
 
 func divF(x, y Float) (Float, error) {
-	switch {
-	case y == 0:
+	if y == 0 {
 		return 0, exceptionalValueZeroDivisor
-	case x > math.MaxFloat64*y:
-		return 0, exceptionalValueFloatOverflow
-	case x < -math.MaxFloat64*y:
-		return 0, exceptionalValueFloatOverflow
 	}
 
 	r := x / y
 
-	// Underflow: x/y = 0 iff x = 0 and y != 0.
-	if r == 0 && x != 0 {
+	switch {
+	case math.IsInf(float64(r), 0):
+		return 0, exceptionalValueFloatOverflow
+	case r == 0 && x != 0: // Underflow: x/y = 0 iff x = 0 and y != 0.
 		return 0, exceptionalValueUnderflow
 	}
 
